@@ -3,6 +3,8 @@ import AGV.Util.Judge
 import AGV.Core.Types
 import AGV.Spec.Cost
 import AGV.Model.Cost
+import AGV.Model.CostValue
+import AGV.Core.VSchema
 
 open AGV AGV.Sexp AGV.Core
 
@@ -28,39 +30,83 @@ def reorder (ops : List OpDef) : List (Option String) → Option (List OpDef)
     | some o => (reorder (ops.filter (·.name ≠ n)) ns).map (o :: ·)
     | none => none
 
+-- what the real registry says (printed by the harness with every output)
+
+def dirDef? : Sexp → Option DirDef
+  | .list (.atom "dirdef" :: .str n :: as) => do
+    some { name := String.ofList n, repeatable := false, locs := [], args := ← as.mapM Decode.argDef? }
+  | _ => none
+
+def inputDef? : Sexp → Option InputDef
+  | .list (.atom "input" :: .str n :: .atom o :: as) => do
+    some { name := String.ofList n, oneof := o == "true", fields := ← as.mapM Decode.argDef? }
+  | _ => none
+
+def vschema? : Sexp → Option VSchema
+  | .list [.atom "vschema", sc, .list (.atom "dirs" :: ds), .list (.atom "inputs" :: is)] => do
+    some { base := ← Decode.schema? sc, dirs := ← ds.mapM dirDef?, inputs := ← is.mapM inputDef? }
+  | _ => none
+
+/-- `(req OPNAME (vars (NAME VALUE)…))`; absent = no operation name, no variables -/
+def req? : List Sexp → Option Model.CostValue.Req
+  | [] => some {}
+  | [.list [.atom "req", o, v]] => do some { opName := ← Decode.optStr? o, vars := ← Decode.vars? v }
+  | _ => none
+
 def stageTok : Stage → String
   | .depth => "depth"
   | .directives => "directives"
   | .done => "done"
 
-def renderOut (order : List Sexp) (r : Stage × Counters) : String :=
-  render (.list [.atom "out", .list (.atom "order" :: order), .atom (stageTok r.1),
-    .list (r.2.toList.map fun n => .atom (toString n))])
+def renderOut (order : List Sexp) (r : Stage × Counters) (extra : List Nat) (reg : List Sexp) : String :=
+  render (.list ([.atom "out", .list (.atom "order" :: order), .atom (stageTok r.1),
+    .list ((r.2.toList ++ extra).map fun n => .atom (toString n))] ++ reg))
 
 def defects (known : List String) : Defects :=
   if known.contains findingId then pinned else {}
 
+/-- value checks a request may need: every value is looked at once per list / non-null layer of
+    the type it is checked against, in each of the walks -/
+def valueSpec (S : VSchema) (cfg : Config) (r : Model.CostValue.Req) (doc : Doc) : Nat :=
+  Spec.Cost.passes cfg.strict * Spec.Cost.valueBoundDoc S r.vars doc
+
 def judge (known : List String) (case impl : String) : JudgeOut :=
   match parse case, parse impl with
-  | some (.list [.atom "case", c, d]), some (.list [.atom "out", .list (.atom "order" :: order), .atom _stage, .list cs]) =>
-    match cfg? c, Decode.doc? d, order.mapM Decode.optStr?, cs.mapM asNat? with
-    | some cfg, some doc, some names, some counts =>
+  | some (.list (.atom "case" :: c :: d :: rq)),
+    some (.list (.atom "out" :: .list (.atom "order" :: order) :: .atom _stage :: .list cs :: reg)) =>
+    match cfg? c, Decode.doc? d, order.mapM Decode.optStr?, cs.mapM asNat?, req? rq with
+    | some cfg, some doc, some names, some counts, some rq =>
       match reorder doc.ops names with
       | none => .viol "bad-order" "the reported operation order is not a permutation of the operations"
       | some ops =>
         let doc' : Doc := { doc with ops := ops }
-        let modelK := renderOut order (run (defects known) cfg doc')
+        let r := run (defects known) cfg doc'
+        -- the ninth counter (calls of is_valid_input_value) exists from the second hook commit on;
+        -- it comes with the registry description the cost model of value checking is evaluated on
+        let newHook : Bool := counts.length == 9
+        let S? : Option VSchema := match reg with | [x] => vschema? x | _ => none
+        match newHook, S? with
+        | true, none => .viol "bad-registry" "nine counters but no decodable registry description"
+        | _, _ =>
+        let extra : List Nat := match newHook, S? with
+          | true, some S => [Model.CostValue.valueCounter {} S cfg.strict rq doc' r.1]
+          | _, _ => []
+        let modelK := renderOut order r extra reg
         -- the property, evaluated on what the implementation did
         let visits := (counts.drop 2).take 4 |>.sum
-        let holds := counts.length = 8 && Spec.Cost.within cfg.strict doc visits (counts.getD 6 0)
+        let vspec : Nat := match S? with | some S => valueSpec S cfg rq doc' | none => 0
+        let holds := (counts.length == 8 || newHook)
+          && Spec.Cost.within cfg.strict doc visits (counts.getD 6 0)
+          && (!newHook || counts.getD 8 0 ≤ vspec)
         let specTxt := s!"visits<={Spec.Cost.visitBound cfg.strict doc} overlap<={Spec.Cost.overlapBound doc}"
+          ++ (if newHook then s!" valueChecks<={vspec}" else "")
         if impl = modelK then
           if holds then .ok
           else if known.contains findingId then .known findingId modelK specTxt
           else .viol modelK specTxt
         else if holds then .tie modelK specTxt
         else .viol modelK specTxt
-    | _, _, _, _ => .viol "bad-case" "undecodable case"
+    | _, _, _, _, _ => .viol "bad-case" "undecodable case"
   | _, _ => .viol "bad-case" "undecodable case or output"
 
 end AGV.Drive.C11
